@@ -67,7 +67,7 @@ impl RecordWriter {
     }
 
     fn write_id(&mut self, id: Id) {
-        if id.0 > (1 << 24) {
+        if id.0 >= (1 << 24) {
             panic!("too many fileids");
         }
         self.write_u24(id.0);
